@@ -65,3 +65,6 @@ pub use static_lut::StaticLut;
 pub use static_lut::{
     Lut0, Lut1, Lut10, Lut11, Lut12, Lut2, Lut3, Lut4, Lut5, Lut6, Lut7, Lut8, Lut9,
 };
+
+#[cfg(volute_verif)]
+pub use canonization::verif_canon_sequences;
